@@ -198,6 +198,21 @@ def parseStim (d : EonD) (ws : List String) : Option (Stim × EonD) :=
   | ["cbrelease", dv] => dv.toNat?.map fun n => (.cbPark (.dev n) false, d)
   | _ => none
 
+/-- `evs <online|offline> …`: a burst of connection events, all of them ready in the event loop before any
+task of the node runs. For the model this is nothing new: the events are appended to the event loop's inbox
+in order (`applyStim … (.ev e)` once per event) and the tasks are explored from there.
+`none` = not an `evs` request; `some none` = a malformed one. -/
+def parseEvs : List String → Option (Option (List Eon.Ev))
+  | "evs" :: es =>
+    if es.isEmpty then some none
+    else some (es.mapM fun e => match e with
+      | "online" => some Eon.Ev.online
+      | "offline" => some Eon.Ev.offline
+      | _ => none)
+  | _ => none
+
+def applyEvs (s : St) (es : List Eon.Ev) : St := es.foldl (fun s e => (applyStim s (.ev e)).1) s
+
 /-- harness-level tokens that are not observations of srad: `R<id>:…` echoes of a resolve stimulus
 and `U:err:Duplicate` / `U:err:NoDevice` produced by the harness itself -/
 def isHarnessTok (t : String) : Bool := t.startsWith "U:err:"
@@ -249,6 +264,10 @@ def stepEon (d : EonD) (ws : List String) : EonD × String :=
     | none => (d, "bad-op")
   | "stim" :: rest =>
     if harnessRefused then run (d.sts.map fun s => (s, [])) d
+    else if let some evs := parseEvs rest then
+      match evs with
+      | some es => run (d.sts.map fun s => (applyEvs s es, [])) d
+      | none => (d, "bad-op")
     else
       match parseStim d rest with
       | some (stim, d') =>
